@@ -1,4 +1,6 @@
 import AsModel.ParseIO
+import AsModel.Anchor
+import AsModel.Extents
 import AsModel.Wire
 import AsModel.Runtime.SetMatch
 import AsModel.Runtime.Offset
@@ -116,7 +118,24 @@ def answerTab (fields : List String) : String :=
   -- parse <token trees> <oracle>: the parser model on the harness's dump of an invocation
   | ["parse", ts, orc] =>
     match (SExp.parse ts).bind readTTs, (SExp.parse orc).bind readOracle with
-    | some ts, some o => showOutcome (parseAssert o ts (2 * ttCount ts + 16) 0)
+    | some ts, some o =>
+      showOutcome (parseAssert o ts (2 * ttCount ts + 16) 0) ++
+        s!"\tspans={if oracleSpansOk ts o then "ok" else "BAD"}\ttokens={if tokensWf ts then "ok" else "BAD"}"
+    | _, _ => "bad-op"
+  -- extents <token trees> <oracle>: own tokens of every node of the accepted pattern (C04's statement on the implementation)
+  | ["extents", ts, orc] =>
+    match (SExp.parse ts).bind readTTs, (SExp.parse orc).bind readOracle with
+    | some ts, some o =>
+      match parseAssert o ts (2 * ttCount ts + 16) 0 with
+      | .accept _ p _ =>
+        let c0 : Cur := { path := [], total := ts.length, rest := ts, scope := Sp.callSite }
+        match exprLen o c0 with
+        | some n =>
+          match extPat o p ((c0.advance n).advance 1) with
+          | some (c', es) => if c'.rest.isEmpty then "ok\t" ++ showExtents es else "walk-incomplete"
+          | none => "walk-failed"
+        | none => "walk-failed"
+      | _ => "not-accepted"
     | _, _ => "bad-op"
   | _ => "bad-op"
 
